@@ -141,24 +141,46 @@ example : WT table exA ∧ WT table exB ∧ WT table (zero table) := by decide
 
 /-! ## Reading paths = folding the merge -/
 
-/-- `ReadConfigPaths` starts from `new(Config)`, every update of the accumulator is
-`result = MergeConfig(result, config)` with `config` from `DecodeConfig`, directory
-entries are sorted by name and filtered on the `.json` suffix, and `result` is returned. -/
+/-- The body of `ReadConfigPaths`, statement by statement, is: `result := new(Config)`; for each
+path: open, stat (each failure returns no configuration); a plain file is decoded and merged
+`MergeConfig(result, config)`; a directory is listed, SORTED, and each entry that is not a
+directory and ends in `.json` is opened, decoded and merged `MergeConfig(result, config)` into
+the SAME running result; finally `result` is returned.  Its variation points are the canonical
+ones (`canonicalRead`), and `dirEnts.Less` orders names ascending. -/
 theorem C31_read_shape :
-    Gen.MergeConfig.readInit = "new(Config)" ∧
-    Gen.MergeConfig.readUpdates = ["MergeConfig(result, config)", "MergeConfig(result, config)"] ∧
-    Gen.MergeConfig.readDecodes = ["DecodeConfig(f)", "DecodeConfig(f)"] ∧
-    Gen.MergeConfig.readSuffix = ["strings.HasSuffix(fi.Name(), \".json\")"] ∧
-    Gen.MergeConfig.readSort = ["sort.Sort(dirEnts(contents))"] ∧
-    Gen.MergeConfig.readLess = "return d[i].Name() < d[j].Name()" ∧
-    Gen.MergeConfig.readReturns = ["result"] := by decide
+    Gen.MergeConfig.readTokens =
+      ["init", "paths[", "open", "fail", "stat", "fail",
+         "file[", "decode", "close", "fail", "merge:result,config", "continue", "]",
+         "readdir", "close", "fail", "sort",
+         "each[", "skipdir", "suffix:.json", "join", "open", "fail", "decode", "close", "fail", "merge:result,config", "]",
+       "]", "return"] ∧
+    Gen.MergeConfig.readShape = canonicalRead := by decide
 
-/-- Reading a list of paths (files, directories, unreadable paths; entries that do not
-decode) equals merging the selected sources one by one, left to right, starting from the
-zero configuration — or fails iff one of them fails. -/
+/-- **the translated reader is the model** -/
+theorem C31_reader_is_model (ps : List PathArg) :
+    readPathsS Gen.MergeConfig.readShape table ps = readPaths table ps := by
+  rw [C31_read_shape.2]; exact readPathsS_canonical table ps
+
+/-- **Reading files in order equals merging them one by one.**  Reading a list of paths (files,
+directories, unreadable paths; entries that do not decode) equals merging the selected sources
+— each file path as given, a directory's non-directory `*.json` entries in lexical order — one
+by one, left to right, starting from the zero configuration; it fails iff one of them fails. -/
 theorem C31_fold (ps : List PathArg) :
-    readPaths table ps = (allOk (sources ps)).map (fun cs => cs.foldl (merge table) (zero table)) :=
-  readLoop_eq table ps (zero table)
+    readPathsS Gen.MergeConfig.readShape table ps =
+      (allOk (sources ps)).map (fun cs => cs.foldl (merge table) (zero table)) := by
+  rw [C31_reader_is_model]; exact readLoop_eq table ps (zero table)
+
+def exComp : Config := (zero table).map fun p => if p.1 == "EnableCompression" then (p.1, .bool true) else p
+
+/-- Regression witness (seeded mutation C31-a): merging a directory's files into an own empty
+configuration first and that into the result is NOT the same reader — a directory that
+contributes no `.json` file then acts as an extra empty source and resets the compression
+switch (which always comes from the later source). -/
+theorem C31_separate_dir_counterexample :
+    get ((readPathsS { canonicalRead with dirMode := .separate } table [.file (some exComp), .dir []]).getD [])
+        "EnableCompression" = .bool false ∧
+    get ((readPathsS canonicalRead table [.file (some exComp), .dir []]).getD []) "EnableCompression" = .bool true := by
+  decide
 
 /-- a concrete reading: a directory listed out of order with a non-`.json` file and a
 sub-directory, and a failing read -/
